@@ -13,7 +13,7 @@ from anytree.exporter import MermaidExporter
 from .. import forest, refs, shapes, strategies
 from ..core import Violation
 from . import c06
-from .c12 import check_gc, check_locale, NAME, NODE_CLASSES, TOKEN, decode_name, exotic_names, aborted_iterations, esc, expected_structure, falsify, fractional, readings, special_names, tripwired
+from .c12 import check_gc, check_tall, check_locale, NAME, NODE_CLASSES, TOKEN, decode_name, exotic_names, aborted_iterations, esc, expected_structure, falsify, fractional, readings, special_names, tripwired
 
 PROP_ID = "C13"
 LEVEL = "exploration"
@@ -37,6 +37,8 @@ ASSUMPTIONS = [
 def check_case(case, acc):
     if case.get("kind") == "locale":
         return check_locale(case, acc)
+    if case.get("kind") == "tall":
+        return check_tall(case, acc, [MermaidExporter])
     if case.get("kind") == "gc":
         return check_gc(case, acc, exporter_cls=MermaidExporter, node_re=r'^(\w+)\["([^"]*)"\]$', edge_re=r'^(\w+)-->(\w+)$', closing=False)
     names = case["names"]
@@ -314,18 +316,39 @@ def _wide_cases(widths):
             yield {"shape": shape, "names": ["n%d" % i for i in range(size)], "start": 0, "stop": [], "hide": hide, "maxlevel": maxlevel, "to_file": True, "cls": "Node"}
 
 
+def _round_cases(totals):
+    """Exports whose number of lines is exactly a round number (block sizes of buffered writers), written to a file."""
+    for total in totals:
+        for options in ([], ["%% one", "%% two"]):
+            width = (total - len(options)) // 2 - 4
+            shape = [[] for _ in range(width)]
+            shape[width // 3] = [[], [[]]]
+            case = {"shape": shape, "names": ["n%d" % i for i in range(width + 4)], "start": 0, "stop": [], "hide": [], "maxlevel": None, "to_file": True, "cls": "Node"}
+            if options:
+                case["options"] = options
+            yield case
+
+
 def plan(tier, seed):
     nshards = 16
     max_nodes = QUICK_N if tier == "quick" else THOROUGH_N
     examples = 150 if tier == "quick" else 1200
     tasks = [{"engine": "enum", "max_nodes": max_nodes, "index": i, "count": nshards * 2} for i in range(nshards * 2)]
     tasks += [{"engine": "hyp", "examples": examples, "seed": seed * 1000 + i} for i in range(nshards)]
+    tasks += [{"engine": "round", "totals": [t]} for t in ((256, 1024, 2048, 4096, 8192) if tier == "quick" else (128, 256, 512, 1000, 1024, 2048, 4096, 8192, 10000, 16384))]
+    tasks += [{"engine": "tall", "factor": f} for f in ((0.6,) if tier == "quick" else (0.3, 0.6, 0.8))]
     tasks += [{"engine": "locale"}, {"engine": "gc"}, {"engine": "fraction", "max_nodes": 4 if tier == "quick" else 5}]
     tasks += [{"engine": "wide", "widths": [w]} for w in ((300, 700) if tier == "quick" else (257, 300, 700, 1100, 2500))]
     return tasks
 
 
 def run_task(task, acc):
+    if task["engine"] == "tall":
+        case = {"kind": "tall", "factor": task["factor"]}
+        exc = acc.evaluate(check_case, case, enumerated=False)
+        if exc is not None:
+            acc.add_violation(case, exc)
+        return
     if task["engine"] == "gc":
         for victims in ([0], [1, 0, 2], [2, 2, 2, 0], [3, 1, 4, 1, 0], [0, 0, 0, 0]):
             case = {"kind": "gc", "width": 5, "victims": victims}
@@ -340,8 +363,8 @@ def run_task(task, acc):
         if exc is not None:
             acc.add_violation(case, exc)
         return
-    if task["engine"] == "wide":
-        for case in _wide_cases(task["widths"]):
+    if task["engine"] in ("wide", "round"):
+        for case in (_wide_cases(task["widths"]) if task["engine"] == "wide" else _round_cases(task["totals"])):
             exc = acc.evaluate(check_case, case, enumerated=False)
             if exc is not None:
                 acc.add_violation(case, exc)
